@@ -6,6 +6,10 @@
 (* reconnect generations, any backlog, any values of MaxDrops / MaxNoise /     *)
 (* MaxSilence / StrictRst.                                                     *)
 (*                                                                             *)
+(* The step lemmas are in LiteClient_Ind1.tla (initial state, callers, server) *)
+(* and LiteClient_Ind2.tla (readers, reconnect); tlapm checks each module in a *)
+(* run of its own, this one proves the registry part and the theorems.         *)
+(*                                                                             *)
 (* EXTENDS LiteClient: the module proved about is spec/proofs/typed/           *)
 (* LiteClient.tla, i.e. spec/LiteClient.tla without the goroutine-counting     *)
 (* operators (their LET RECURSIVE is rejected by tlapm's parser); Init, Next   *)
@@ -27,931 +31,7 @@
 (*            longer registered, at most one reader holds a given id, and its  *)
 (*            reply channel is still empty (so the delivery cannot block and   *)
 (*            the channel never holds two items).                              *)
-EXTENDS LiteClient_Inv, SequenceTheorems, TLAPS
-
-(* ================================================================== basics *)
-LEMMA NoPktType == NoPkt \in Pkts /\ NoPkt.t = "none"
-  BY DEF NoPkt, Pkts
-
-LEMMA NewLinkType == NewLink \in LinkRec /\ NewLink.in = <<>> /\ NewLink.rh = NoPkt
-  BY NoPktType DEF NewLink, LinkRec, Fins, PSts, RSts
-
-LEMMA ConnsNat == Conns \subseteq Nat
-  BY ConstAssump DEF Conns
-
-LEMMA InitInv == Init => Inv
-<1> SUFFICES ASSUME Init PROVE Inv
-  OBVIOUS
-<1> USE DEF Init
-<1>0. NewLink \in LinkRec /\ NoPkt \in Pkts
-  BY NewLinkType, NoPktType
-<1>1. [NewLink EXCEPT !.p = "run", !.r = "run"] \in LinkRec
-  BY <1>0 DEF LinkRec, PSts, RSts
-<1>2. \A k \in Conns : link[k] \in Seq(LinkRec) /\ Len(link[k]) = 1 /\ link[k][1] = [NewLink EXCEPT !.p = "run", !.r = "run"]
-  BY <1>1
-<1>3. TypeInv
-  <2>1. ret \in [Calls -> RetVals]
-    BY DEF RetVals
-  <2>2. chans \in [Calls -> Seq(Vals)]
-    OBVIOUS
-  <2>3. clr \in [Conns -> ClrRec]
-    BY <1>0 DEF ClrRec
-  <2> QED
-    BY <1>2, <2>1, <2>2, <2>3 DEF TypeInv, PcSet
-<1>4. DataInv
-  <2>1. LinkOK(link, produced)
-    <3>1. /\ [NewLink EXCEPT !.p = "run", !.r = "run"].in = <<>>
-          /\ [NewLink EXCEPT !.p = "run", !.r = "run"].rh = NoPkt
-      BY NewLinkType DEF LinkRec
-    <3>2. RecOK([NewLink EXCEPT !.p = "run", !.r = "run"], produced)
-      BY <3>1, NoPktType DEF RecOK, PktOKp
-    <3> QED
-      BY <1>2, <3>2 DEF LinkOK
-  <2>2. ClrOK(clr, produced)
-    BY NoPktType DEF ClrOK, PktOKp
-  <2>3. ChanOwn /\ OwnAnswer
-    BY DEF ChanOwn, OwnAnswer
-  <2> QED
-    BY <2>1, <2>2, <2>3 DEF DataInv
-<1>5. RegInv
-  BY DEF RegInv, RI1, RI2, RI3, RI4, RI5, RegisteredWhileWaiting, Found
-<1> QED
-  BY <1>3, <1>4, <1>5 DEF Inv
-
-(* ------------------------------------------- what SetL does to a typed link *)
-LEMMA SetLFacts ==
-  ASSUME TypeInv, NEW k \in Conns, NEW g \in Gens(k), NEW rec \in LinkRec, SetL(k, g, rec)
-  PROVE  /\ link' \in [Conns -> Seq(LinkRec)]
-         /\ \A k2 \in Conns : Len(link'[k2]) = Len(link[k2])
-         /\ \A k2 \in Conns : \A g2 \in 1..Len(link[k2]) :
-               link'[k2][g2] = IF k2 = k /\ g2 = g THEN rec ELSE link[k2][g2]
-<1>1. link \in [Conns -> Seq(LinkRec)] /\ link[k] \in Seq(LinkRec) /\ g \in 1..Len(link[k])
-  BY DEF TypeInv, Gens
-<1>2. link' = [link EXCEPT ![k] = [link[k] EXCEPT ![g] = rec]]
-  BY <1>1 DEF SetL
-<1>3. /\ [link[k] EXCEPT ![g] = rec] \in Seq(LinkRec)
-      /\ Len([link[k] EXCEPT ![g] = rec]) = Len(link[k])
-      /\ \A j \in 1 .. Len(link[k]) : [link[k] EXCEPT ![g] = rec][j] = IF j = g THEN rec ELSE link[k][j]
-  BY <1>1, ExceptSeq
-<1> QED
-  BY <1>1, <1>2, <1>3
-
-LEMMA PktMono ==
-  ASSUME NEW p, NEW p1, NEW p2, Mono(p1, p2), PktOKp(p, p1)
-  PROVE  PktOKp(p, p2)
-  BY DEF Mono, PktOKp
-
-LEMMA SetLData ==
-  ASSUME TypeInv, LinkOK(link, produced), NEW k \in Conns, NEW g \in Gens(k), NEW rec \in LinkRec, SetL(k, g, rec),
-         Mono(produced, produced'), RecOK(rec, produced')
-  PROVE  LinkOK(link', produced')
-<1>1. /\ \A k2 \in Conns : Len(link'[k2]) = Len(link[k2])
-      /\ \A k2 \in Conns : \A g2 \in 1..Len(link[k2]) :
-               link'[k2][g2] = IF k2 = k /\ g2 = g THEN rec ELSE link[k2][g2]
-  BY SetLFacts
-<1>2. \A l : RecOK(l, produced) => RecOK(l, produced')
-  BY PktMono DEF RecOK
-<1> SUFFICES ASSUME NEW k2 \in Conns, NEW g2 \in 1..Len(link'[k2]) PROVE RecOK(link'[k2][g2], produced')
-  BY DEF LinkOK
-<1>3. g2 \in 1..Len(link[k2])
-  BY <1>1
-<1>4. CASE k2 = k /\ g2 = g
-  BY <1>1, <1>3, <1>4
-<1>5. CASE ~(k2 = k /\ g2 = g)
-  <2>1. link'[k2][g2] = link[k2][g2]
-    BY <1>1, <1>3, <1>5
-  <2>2. RecOK(link[k2][g2], produced)
-    BY <1>3 DEF LinkOK
-  <2> QED
-    BY <2>1, <2>2, <1>2
-<1> QED
-  BY <1>4, <1>5
-
-(* ------------------- generic step: one generation record replaced, nothing else *)
-LEMMA RecOfLink ==
-  ASSUME TypeInv, NEW k \in Conns, NEW g \in Gens(k)
-  PROVE  /\ L(k, g) \in LinkRec /\ L(k, g) = link[k][g] /\ g \in 1..Len(link[k])
-         /\ L(k, g).in \in Seq(Pkts) /\ L(k, g).rh \in Pkts
-  BY DEF TypeInv, Gens, L, LinkRec
-
-LEMMA CurOfLink ==
-  ASSUME TypeInv, NEW k \in Conns
-  PROVE  gen[k] \in Gens(k) /\ Cur(k) = L(k, gen[k])
-  BY DEF TypeInv, Gens, L, Cur
-
-LEMMA SetLStep ==
-  ASSUME TypeInv, DataInv, NEW k \in Conns, NEW g \in Gens(k), NEW rec \in LinkRec, SetL(k, g, rec),
-         RecOK(rec, produced),
-         pc' \in [Calls -> PcSet], \A c \in Calls : pc'[c] = "picked" => pc[c] = "picked",
-         UNCHANGED <<conn, ret, queries, chans, status, gen, clr, produced>>
-  PROVE  TypeInv' /\ DataInv'
-<1>1. /\ link' \in [Conns -> Seq(LinkRec)]
-      /\ \A k2 \in Conns : Len(link'[k2]) = Len(link[k2])
-  BY SetLFacts
-<1>2. TypeInv'
-  BY <1>1 DEF TypeInv
-<1>3. Mono(produced, produced') /\ RecOK(rec, produced')
-  BY DEF Mono
-<1>4. LinkOK(link', produced')
-  BY <1>3, SetLData DEF DataInv
-<1>5. ClrOK(clr', produced') /\ ChanOwn' /\ OwnAnswer'
-  BY DEF DataInv, ClrOK, ChanOwn, OwnAnswer
-<1> QED
-  BY <1>2, <1>4, <1>5 DEF DataInv
-
-\* a record that keeps the packets of a good record is good
-LEMMA SamePktsOK ==
-  ASSUME NEW l, NEW rec, NEW prod, RecOK(l, prod), rec.in = l.in, rec.rh = l.rh
-  PROVE  RecOK(rec, prod)
-  BY DEF RecOK
-
-LEMMA LinkRecOK ==
-  ASSUME TypeInv, DataInv, NEW k \in Conns, NEW g \in Gens(k)
-  PROVE  RecOK(L(k, g), produced)
-  BY RecOfLink DEF DataInv, LinkOK
-
-\* nothing that the invariant mentions changes
-LEMMA UnchStep ==
-  ASSUME TypeInv, DataInv,
-         UNCHANGED <<pc, conn, ret, queries, chans, status, gen, link, clr, produced>>
-  PROVE  TypeInv' /\ DataInv'
-  BY DEF TypeInv, DataInv, LinkOK, ClrOK, ChanOwn, OwnAnswer
-
-(* ================================================================ the callers *)
-LEMMA S_Register ==
-  ASSUME TypeInv, DataInv, NEW c \in Calls, Register(c)
-  PROVE  TypeInv' /\ DataInv'
-<1>1. TypeInv'
-  BY DEF TypeInv, Register, PcSet
-<1>2. DataInv'
-  BY DEF DataInv, Register, LinkOK, ClrOK, ChanOwn, OwnAnswer
-<1> QED
-  BY <1>1, <1>2
-
-LEMMA S_PickConn ==
-  ASSUME TypeInv, DataInv, NEW c \in Calls, NEW k \in Conns, PickConn(c, k)
-  PROVE  TypeInv' /\ DataInv'
-<1>1. TypeInv'
-  BY ConnsNat DEF TypeInv, PickConn, PcSet
-<1>2. DataInv'
-  BY DEF DataInv, PickConn, LinkOK, ClrOK, ChanOwn, OwnAnswer
-<1> QED
-  BY <1>1, <1>2
-
-LEMMA RetKinds ==
-  /\ <<"notconnected">> \in RetVals /\ <<"senderr">> \in RetVals /\ <<"timeout">> \in RetVals
-  /\ <<"notconnected">>[1] # "answer" /\ <<"senderr">>[1] # "answer" /\ <<"timeout">>[1] # "answer"
-  BY DEF RetVals
-
-LEMMA S_SendNotConnected ==
-  ASSUME TypeInv, DataInv, NEW c \in Calls, SendNotConnected(c)
-  PROVE  TypeInv' /\ DataInv'
-<1>1. TypeInv'
-  BY RetKinds DEF TypeInv, SendNotConnected, PcSet
-<1>2. OwnAnswer'
-  BY RetKinds DEF TypeInv, DataInv, SendNotConnected, OwnAnswer
-<1>3. DataInv'
-  BY <1>2 DEF DataInv, SendNotConnected, LinkOK, ClrOK, ChanOwn
-<1> QED
-  BY <1>1, <1>3
-
-LEMMA S_SendFail ==
-  ASSUME TypeInv, DataInv, NEW c \in Calls, SendFail(c)
-  PROVE  TypeInv' /\ DataInv'
-<1>1. TypeInv'
-  BY RetKinds DEF TypeInv, SendFail, PcSet
-<1>2. OwnAnswer'
-  BY RetKinds DEF TypeInv, DataInv, SendFail, OwnAnswer
-<1>3. DataInv'
-  BY <1>2 DEF DataInv, SendFail, LinkOK, ClrOK, ChanOwn
-<1> QED
-  BY <1>1, <1>3
-
-LEMMA S_CallerTimeout ==
-  ASSUME TypeInv, DataInv, NEW c \in Calls, CallerTimeout(c)
-  PROVE  TypeInv' /\ DataInv'
-<1>1. TypeInv'
-  BY RetKinds DEF TypeInv, CallerTimeout, PcSet
-<1>2. OwnAnswer'
-  BY RetKinds DEF TypeInv, DataInv, CallerTimeout, OwnAnswer
-<1>3. DataInv'
-  BY <1>2 DEF DataInv, CallerTimeout, LinkOK, ClrOK, ChanOwn
-<1> QED
-  BY <1>1, <1>3
-
-LEMMA S_Unregister ==
-  ASSUME TypeInv, DataInv, NEW c \in Calls, Unregister(c)
-  PROVE  TypeInv' /\ DataInv'
-<1>1. TypeInv'
-  BY DEF TypeInv, Unregister, PcSet
-<1>2. DataInv'
-  BY DEF DataInv, Unregister, LinkOK, ClrOK, ChanOwn, OwnAnswer
-<1> QED
-  BY <1>1, <1>2
-
-LEMMA S_SendOk ==
-  ASSUME TypeInv, DataInv, NEW c \in Calls, SendOk(c)
-  PROVE  TypeInv' /\ DataInv'
-<1> DEFINE k == conn[c]
-           l == Cur(k)
-           rec == IF l.fin = "open" THEN [l EXCEPT !.out = @ \cup {c}] ELSE [l EXCEPT !.rst = TRUE]
-<1>1. k \in Conns /\ pc[c] = "picked"
-  BY DEF TypeInv, SendOk
-<1>2. gen[k] \in Gens(k) /\ l = L(k, gen[k]) /\ l \in LinkRec
-  BY <1>1, CurOfLink, RecOfLink
-<1>3. rec \in LinkRec /\ rec.in = l.in /\ rec.rh = l.rh
-  BY <1>2 DEF LinkRec
-<1>4. RecOK(rec, produced)
-  BY <1>1, <1>2, <1>3, LinkRecOK, SamePktsOK
-<1>5. SetL(k, gen[k], rec)
-  BY DEF SendOk
-<1>6. pc' \in [Calls -> PcSet] /\ \A d \in Calls : pc'[d] = "picked" => pc[d] = "picked"
-  BY DEF SendOk, TypeInv, PcSet
-<1>7. UNCHANGED <<conn, ret, queries, chans, status, gen, clr, produced>>
-  BY DEF SendOk
-<1> HIDE DEF k, l, rec
-<1> QED
-  BY <1>1, <1>2, <1>3, <1>4, <1>5, <1>6, <1>7, SetLStep
-
-LEMMA S_CallerRecv ==
-  ASSUME TypeInv, DataInv, NEW c \in Calls, CallerRecv(c)
-  PROVE  TypeInv' /\ DataInv'
-<1>0. chans[c] \in Seq(Vals) /\ chans[c] # <<>>
-  BY DEF TypeInv, CallerRecv
-<1>1. /\ Head(chans[c]) \in Vals /\ Tail(chans[c]) \in Seq(Vals)
-      /\ Len(Tail(chans[c])) = Len(chans[c]) - 1
-      /\ \A i \in 1 .. Len(Tail(chans[c])) : Tail(chans[c])[i] = chans[c][i+1]
-      /\ Head(chans[c]) = chans[c][1] /\ Len(chans[c]) \in Nat \ {0}
-  BY <1>0, HeadTailProperties, EmptySeq
-<1>2. <<"answer", Head(chans[c])>> \in RetVals
-  BY <1>1 DEF RetVals
-<1>3. TypeInv'
-  BY <1>1, <1>2 DEF TypeInv, CallerRecv, PcSet
-<1>4. Head(chans[c]) \in produced[c]
-  BY <1>1 DEF DataInv, ChanOwn
-<1>5. OwnAnswer'
-  BY <1>4 DEF TypeInv, DataInv, CallerRecv, OwnAnswer
-<1>6. ChanOwn'
-  <2> SUFFICES ASSUME NEW d \in Calls, NEW j \in 1..Len(chans'[d]) PROVE chans'[d][j] \in produced'[d]
-    BY DEF ChanOwn
-  <2>1. CASE d = c
-    <3>1. chans'[d] = Tail(chans[c]) /\ produced' = produced
-      BY <2>1 DEF TypeInv, CallerRecv
-    <3>2. chans'[d][j] = chans[c][j+1] /\ j+1 \in 1..Len(chans[c])
-      BY <3>1, <1>1
-    <3> QED
-      BY <3>1, <3>2, <2>1 DEF DataInv, ChanOwn
-  <2>2. CASE d # c
-    BY <2>2 DEF TypeInv, DataInv, ChanOwn, CallerRecv
-  <2> QED
-    BY <2>1, <2>2
-<1>7. LinkOK(link', produced') /\ ClrOK(clr', produced')
-  BY DEF DataInv, CallerRecv, LinkOK, ClrOK
-<1> QED
-  BY <1>3, <1>5, <1>6, <1>7 DEF DataInv
-
-(* ================================================================= the server *)
-LEMMA S_SrvRecv ==
-  ASSUME TypeInv, DataInv, NEW k \in Conns, NEW g \in Gens(k), NEW i \in Calls, SrvRecv(k, g, i)
-  PROVE  TypeInv' /\ DataInv'
-<1> DEFINE l == L(k, g)
-           rec == [l EXCEPT !.out = @ \ {i}, !.pend = @ \cup {i}]
-<1>1. l \in LinkRec /\ RecOK(l, produced)
-  BY RecOfLink, LinkRecOK
-<1>2. rec \in LinkRec /\ rec.in = l.in /\ rec.rh = l.rh
-  BY <1>1 DEF LinkRec
-<1>3. RecOK(rec, produced)
-  BY <1>1, <1>2, SamePktsOK
-<1>4. SetL(k, g, rec) /\ UNCHANGED <<pc, conn, ret, queries, chans, status, gen, clr, produced>>
-  BY DEF SrvRecv, callVars
-<1>5. pc' \in [Calls -> PcSet] /\ \A d \in Calls : pc'[d] = "picked" => pc[d] = "picked"
-  BY <1>4 DEF TypeInv
-<1> HIDE DEF l, rec
-<1> QED
-  BY <1>2, <1>3, <1>4, <1>5, SetLStep
-
-LEMMA S_SrvDrop ==
-  ASSUME TypeInv, DataInv, NEW k \in Conns, NEW g \in Gens(k), SrvDrop(k, g)
-  PROVE  TypeInv' /\ DataInv'
-<1> DEFINE l == L(k, g)
-           rec == [l EXCEPT !.fin = "srv", !.out = {}, !.pend = {}]
-<1>1. l \in LinkRec /\ RecOK(l, produced)
-  BY RecOfLink, LinkRecOK
-<1>2. rec \in LinkRec /\ rec.in = l.in /\ rec.rh = l.rh
-  BY <1>1 DEF LinkRec, Fins
-<1>3. RecOK(rec, produced)
-  BY <1>1, <1>2, SamePktsOK
-<1>4. SetL(k, g, rec) /\ UNCHANGED <<pc, conn, ret, queries, chans, status, gen, clr, produced>>
-  BY DEF SrvDrop, callVars
-<1>5. pc' \in [Calls -> PcSet] /\ \A d \in Calls : pc'[d] = "picked" => pc[d] = "picked"
-  BY <1>4 DEF TypeInv
-<1> HIDE DEF l, rec
-<1> QED
-  BY <1>2, <1>3, <1>4, <1>5, SetLStep
-
-\* appending a good packet to the backlog of a good record
-LEMMA PushOK ==
-  ASSUME NEW l \in LinkRec, NEW p \in Pkts, NEW prod, RecOK(l, prod), PktOKp(p, prod)
-  PROVE  /\ [l EXCEPT !.in = Append(@, p)] \in LinkRec
-         /\ RecOK([l EXCEPT !.in = Append(@, p)], prod)
-<1> DEFINE rec == [l EXCEPT !.in = Append(@, p)]
-<1>1. l.in \in Seq(Pkts)
-  BY DEF LinkRec
-<1>2. /\ Append(l.in, p) \in Seq(Pkts)
-      /\ Len(Append(l.in, p)) = Len(l.in) + 1
-      /\ \A i \in 1 .. Len(l.in) : Append(l.in, p)[i] = l.in[i]
-      /\ Append(l.in, p)[Len(l.in) + 1] = p
-      /\ Len(l.in) \in Nat
-  BY <1>1, AppendProperties, LenProperties
-<1>3. rec \in LinkRec /\ rec.in = Append(l.in, p) /\ rec.rh = l.rh
-  BY <1>2 DEF LinkRec
-<1>4. \A j \in 1..Len(rec.in) : PktOKp(rec.in[j], prod)
-  <2> TAKE j \in 1..Len(rec.in)
-  <2>1. CASE j \in 1..Len(l.in)
-    BY <2>1, <1>2, <1>3 DEF RecOK
-  <2>2. CASE j = Len(l.in) + 1
-    BY <2>2, <1>2, <1>3
-  <2> QED
-    BY <2>1, <2>2, <1>2, <1>3
-<1>5. RecOK(rec, prod)
-  BY <1>3, <1>4 DEF RecOK
-<1> QED
-  BY <1>3, <1>5
-
-LEMMA S_Push ==
-  ASSUME TypeInv, DataInv, NEW k \in Conns, NEW g \in Gens(k), NEW p \in Pkts, PktOKp(p, produced),
-         Push(k, g, p), UNCHANGED <<pc, conn, ret, queries, chans, status, gen, clr, produced>>
-  PROVE  TypeInv' /\ DataInv'
-<1> DEFINE l == L(k, g)
-           rec == [l EXCEPT !.in = Append(@, p)]
-<1>1. l \in LinkRec /\ RecOK(l, produced)
-  BY RecOfLink, LinkRecOK
-<1>2. rec \in LinkRec /\ RecOK(rec, produced)
-  BY <1>1, PushOK
-<1>3. SetL(k, g, rec)
-  BY DEF Push
-<1>4. pc' \in [Calls -> PcSet] /\ \A d \in Calls : pc'[d] = "picked" => pc[d] = "picked"
-  BY DEF TypeInv
-<1> HIDE DEF l, rec
-<1> QED
-  BY <1>2, <1>3, <1>4, SetLStep
-
-LEMMA S_SrvDup ==
-  ASSUME TypeInv, DataInv, NEW k \in Conns, NEW g \in Gens(k), NEW i \in Calls, SrvDup(k, g, i, i)
-  PROVE  TypeInv' /\ DataInv'
-<1> DEFINE p == [t |-> "ans", id |-> i, v |-> i]
-<1>1. p \in Pkts /\ PktOKp(p, produced)
-  BY DEF Pkts, PktOKp, SrvDup
-<1>2. Push(k, g, p) /\ UNCHANGED <<pc, conn, ret, queries, chans, status, gen, clr, produced>>
-  BY DEF SrvDup, callVars
-<1> HIDE DEF p
-<1> QED
-  BY <1>1, <1>2, S_Push
-
-LEMMA S_SrvNoise ==
-  ASSUME TypeInv, DataInv, NEW k \in Conns, NEW g \in Gens(k), NEW t, SrvNoise(k, g, t, Unknown)
-  PROVE  TypeInv' /\ DataInv'
-<1> DEFINE p == [t |-> t, id |-> Unknown, v |-> Unknown]
-<1>1. p \in Pkts /\ PktOKp(p, produced)
-  BY ConstAssump DEF Pkts, PktOKp, SrvNoise
-<1>2. Push(k, g, p) /\ UNCHANGED <<pc, conn, ret, queries, chans, status, gen, clr, produced>>
-  BY DEF SrvNoise, callVars
-<1> HIDE DEF p
-<1> QED
-  BY <1>1, <1>2, S_Push
-
-LEMMA S_SrvAnswer ==
-  ASSUME TypeInv, DataInv, NEW k \in Conns, NEW g \in Gens(k), NEW i \in Calls, SrvAnswer(k, g, i, i)
-  PROVE  TypeInv' /\ DataInv'
-<1> DEFINE l == L(k, g)
-           p == [t |-> "ans", id |-> i, v |-> i]
-           l2 == [l EXCEPT !.pend = @ \ {i}]
-           rec == [l EXCEPT !.in = Append(@, p), !.pend = @ \ {i}]
-<1>0. produced \in [Calls -> SUBSET Vals] /\ produced' = [produced EXCEPT ![i] = @ \cup {i}]
-  BY DEF TypeInv, SrvAnswer
-<1>1. Mono(produced, produced') /\ produced' \in [Calls -> SUBSET Vals] /\ i \in produced'[i]
-  BY <1>0 DEF Mono, Vals
-<1>2. l \in LinkRec /\ RecOK(l, produced)
-  BY RecOfLink, LinkRecOK
-<1>3. l2 \in LinkRec /\ l2.in = l.in /\ l2.rh = l.rh
-  BY <1>2 DEF LinkRec
-<1>4. RecOK(l2, produced')
-  <2>1. RecOK(l, produced')
-    BY <1>1, <1>2, PktMono DEF RecOK
-  <2> QED
-    BY <2>1, <1>3, SamePktsOK
-<1>5. p \in Pkts /\ PktOKp(p, produced')
-  BY <1>1 DEF Pkts, PktOKp
-<1>6. rec = [l2 EXCEPT !.in = Append(@, p)]
-  BY <1>2 DEF LinkRec
-<1>7. rec \in LinkRec /\ RecOK(rec, produced')
-  <2> HIDE DEF l2, p, rec
-  <2> QED
-    BY <1>3, <1>4, <1>5, <1>6, PushOK
-<1>8. SetL(k, g, rec) /\ UNCHANGED <<pc, conn, ret, queries, chans, status, gen, clr>>
-  BY DEF SrvAnswer, callVars
-<1> HIDE DEF l, l2, p, rec
-<1>9. /\ link' \in [Conns -> Seq(LinkRec)]
-      /\ \A k2 \in Conns : Len(link'[k2]) = Len(link[k2])
-  BY <1>7, <1>8, SetLFacts
-<1>10. TypeInv'
-  BY <1>1, <1>8, <1>9 DEF TypeInv
-<1>11. LinkOK(link', produced')
-  BY <1>1, <1>7, <1>8, SetLData DEF DataInv
-<1>12. ClrOK(clr', produced')
-  BY <1>1, <1>8, PktMono DEF DataInv, ClrOK
-<1>13. ChanOwn' /\ OwnAnswer'
-  BY <1>1, <1>8 DEF DataInv, ChanOwn, OwnAnswer, Mono
-<1> QED
-  BY <1>10, <1>11, <1>12, <1>13 DEF DataInv
-
-(* ============================================ generation g of connection k: P and R *)
-LEMMA TailOK ==
-  ASSUME NEW l \in LinkRec, NEW prod, RecOK(l, prod), l.in # <<>>
-  PROVE  /\ Head(l.in) \in Pkts /\ PktOKp(Head(l.in), prod)
-         /\ Tail(l.in) \in Seq(Pkts)
-         /\ \A j \in 1..Len(Tail(l.in)) : PktOKp(Tail(l.in)[j], prod)
-<1>1. l.in \in Seq(Pkts)
-  BY DEF LinkRec
-<1>2. /\ Head(l.in) \in Pkts /\ Tail(l.in) \in Seq(Pkts)
-      /\ Len(Tail(l.in)) = Len(l.in) - 1
-      /\ \A i \in 1 .. Len(Tail(l.in)) : Tail(l.in)[i] = l.in[i+1]
-      /\ Head(l.in) = l.in[1] /\ Len(l.in) \in Nat \ {0}
-  BY <1>1, HeadTailProperties, EmptySeq
-<1>3. PktOKp(Head(l.in), prod)
-  BY <1>2 DEF RecOK
-<1>4. \A j \in 1..Len(Tail(l.in)) : PktOKp(Tail(l.in)[j], prod)
-  <2> TAKE j \in 1..Len(Tail(l.in))
-  <2>1. Tail(l.in)[j] = l.in[j+1] /\ j+1 \in 1..Len(l.in)
-    BY <1>2
-  <2> QED
-    BY <2>1 DEF RecOK
-<1> QED
-  BY <1>2, <1>3, <1>4
-
-\* a step that only replaces record (k, g)
-LEMMA S_SetLOnly ==
-  ASSUME TypeInv, DataInv, NEW k \in Conns, NEW g \in Gens(k), NEW rec \in LinkRec, RecOK(rec, produced),
-         SetL(k, g, rec), UNCHANGED <<pc, conn, ret, queries, chans, status, gen, clr, produced>>
-  PROVE  TypeInv' /\ DataInv'
-<1>1. pc' \in [Calls -> PcSet] /\ \A d \in Calls : pc'[d] = "picked" => pc[d] = "picked"
-  BY DEF TypeInv
-<1> QED
-  BY <1>1, SetLStep
-
-LEMMA S_ConnReaderRecv ==
-  ASSUME TypeInv, DataInv, NEW k \in Conns, NEW g \in Gens(k), ConnReaderRecv(k, g)
-  PROVE  TypeInv' /\ DataInv'
-<1> DEFINE l == L(k, g)
-           p == Head(l.in)
-           rec == IF p.t = "pong" THEN [l EXCEPT !.in = Tail(@)]
-                  ELSE [l EXCEPT !.in = Tail(@), !.r = "offer", !.rh = p]
-<1>1. l \in LinkRec /\ RecOK(l, produced) /\ l.in # <<>>
-  BY RecOfLink, LinkRecOK DEF ConnReaderRecv
-<1>2. /\ p \in Pkts /\ PktOKp(p, produced) /\ Tail(l.in) \in Seq(Pkts)
-      /\ \A j \in 1..Len(Tail(l.in)) : PktOKp(Tail(l.in)[j], produced)
-  BY <1>1, TailOK
-<1>3. rec \in LinkRec /\ rec.in = Tail(l.in) /\ (rec.rh = l.rh \/ rec.rh = p)
-  BY <1>1, <1>2 DEF LinkRec, RSts
-<1>4. RecOK(rec, produced)
-  BY <1>1, <1>2, <1>3 DEF RecOK
-<1>5. SetL(k, g, rec) /\ UNCHANGED <<pc, conn, ret, queries, chans, status, gen, clr, produced>>
-  BY DEF ConnReaderRecv, callVars
-<1> HIDE DEF l, p, rec
-<1> QED
-  BY <1>3, <1>4, <1>5, S_SetLOnly
-
-LEMMA S_PktStuck ==
-  ASSUME TypeInv, DataInv, NEW k \in Conns, NEW g \in Gens(k), PktStuck(k, g)
-  PROVE  TypeInv' /\ DataInv'
-<1> DEFINE l == L(k, g)
-           rec == [l EXCEPT !.p = "stuck", !.in = Tail(@)]
-<1>1. l \in LinkRec /\ RecOK(l, produced) /\ l.in # <<>>
-  BY RecOfLink, LinkRecOK DEF PktStuck
-<1>2. /\ Tail(l.in) \in Seq(Pkts)
-      /\ \A j \in 1..Len(Tail(l.in)) : PktOKp(Tail(l.in)[j], produced)
-  BY <1>1, TailOK
-<1>3. rec \in LinkRec /\ rec.in = Tail(l.in) /\ rec.rh = l.rh
-  BY <1>1, <1>2 DEF LinkRec, PSts
-<1>4. RecOK(rec, produced)
-  BY <1>1, <1>2, <1>3 DEF RecOK
-<1>5. SetL(k, g, rec) /\ UNCHANGED <<pc, conn, ret, queries, chans, status, gen, clr, produced>>
-  BY DEF PktStuck, callVars
-<1> HIDE DEF l, rec
-<1> QED
-  BY <1>3, <1>4, <1>5, S_SetLOnly
-
-\* PktExit, ConnReaderEOF, ConnReaderSilence: one status field of the record changes
-LEMMA S_FieldOnly ==
-  ASSUME TypeInv, DataInv, NEW k \in Conns, NEW g \in Gens(k),
-         \/ PktExit(k, g) \/ ConnReaderEOF(k, g) \/ ConnReaderSilence(k, g)
-  PROVE  TypeInv' /\ DataInv'
-<1> DEFINE l == L(k, g)
-<1>1. l \in LinkRec /\ RecOK(l, produced)
-  BY RecOfLink, LinkRecOK
-<1>2. PICK rec \in LinkRec : /\ rec.in = l.in /\ rec.rh = l.rh /\ SetL(k, g, rec)
-                             /\ UNCHANGED <<pc, conn, ret, queries, chans, status, gen, clr, produced>>
-  <2>1. CASE PktExit(k, g)
-    <3>1. [l EXCEPT !.p = "dead"] \in LinkRec
-      BY <1>1 DEF LinkRec, PSts
-    <3> QED
-      BY <2>1, <3>1, <1>1 DEF PktExit, callVars, LinkRec
-  <2>2. CASE ConnReaderEOF(k, g)
-    <3>1. [l EXCEPT !.r = "dead"] \in LinkRec
-      BY <1>1 DEF LinkRec, RSts
-    <3> QED
-      BY <2>2, <3>1, <1>1 DEF ConnReaderEOF, callVars, LinkRec
-  <2>3. CASE ConnReaderSilence(k, g)
-    <3>1. [l EXCEPT !.r = "rc"] \in LinkRec
-      BY <1>1 DEF LinkRec, RSts
-    <3> QED
-      BY <2>3, <3>1, <1>1 DEF ConnReaderSilence, callVars, LinkRec
-  <2> QED
-    BY <2>1, <2>2, <2>3
-<1>3. RecOK(rec, produced)
-  BY <1>1, <1>2, SamePktsOK
-<1> HIDE DEF l
-<1> QED
-  BY <1>2, <1>3, S_SetLOnly
-
-LEMMA S_HandOff ==
-  ASSUME TypeInv, DataInv, NEW k \in Conns, NEW g \in Gens(k), HandOff(k, g)
-  PROVE  TypeInv' /\ DataInv'
-<1> DEFINE l == L(k, g)
-           rec == [l EXCEPT !.r = "run", !.rh = NoPkt]
-<1>1. l \in LinkRec /\ RecOK(l, produced) /\ l.rh \in Pkts
-  BY RecOfLink, LinkRecOK
-<1>2. rec \in LinkRec /\ rec.in = l.in /\ rec.rh = NoPkt
-  BY <1>1, NoPktType DEF LinkRec, RSts
-<1>3. RecOK(rec, produced)
-  BY <1>1, <1>2, NoPktType DEF RecOK, PktOKp
-<1>4. /\ SetL(k, g, rec) /\ clr' = [clr EXCEPT ![k] = [st |-> "got", pkt |-> l.rh]]
-      /\ UNCHANGED <<pc, conn, ret, queries, chans, status, gen, produced>>
-  BY DEF HandOff, callVars
-<1>5. PktOKp(l.rh, produced)
-  BY <1>1 DEF RecOK
-<1> HIDE DEF l, rec
-<1>6. /\ link' \in [Conns -> Seq(LinkRec)]
-      /\ \A k2 \in Conns : Len(link'[k2]) = Len(link[k2])
-  BY <1>2, <1>4, SetLFacts
-<1>7. clr' \in [Conns -> ClrRec]
-  BY <1>1, <1>4 DEF TypeInv, ClrRec
-<1>8. TypeInv'
-  BY <1>4, <1>6, <1>7 DEF TypeInv
-<1>9. LinkOK(link', produced')
-  <2>1. Mono(produced, produced') /\ RecOK(rec, produced')
-    BY <1>3, <1>4 DEF Mono
-  <2> QED
-    BY <2>1, <1>2, <1>4, SetLData DEF DataInv
-<1>10. ClrOK(clr', produced')
-  BY <1>4, <1>5 DEF TypeInv, DataInv, ClrOK
-<1>11. ChanOwn' /\ OwnAnswer'
-  BY <1>4 DEF DataInv, ChanOwn, OwnAnswer
-<1> QED
-  BY <1>8, <1>9, <1>10, <1>11 DEF DataInv
-
-(* ============================================== Client.reader of connection k *)
-LEMMA S_Lookup ==
-  ASSUME TypeInv, DataInv, NEW k \in Conns, ClientReaderLookup(k)
-  PROVE  TypeInv' /\ DataInv'
-<1>1. clr[k] \in ClrRec /\ clr[k].pkt \in Pkts
-  BY DEF TypeInv, ClrRec
-<1>2. clr' \in [Conns -> ClrRec]
-  BY <1>1, NoPktType DEF TypeInv, ClientReaderLookup, ClrRec
-<1>3. queries' \subseteq Calls
-  BY DEF TypeInv, ClientReaderLookup
-<1>4. TypeInv'
-  BY <1>2, <1>3 DEF TypeInv, ClientReaderLookup
-<1>5. ClrOK(clr', produced')
-  <2> SUFFICES ASSUME NEW k2 \in Conns
-               PROVE  /\ PktOKp(clr'[k2].pkt, produced')
-                      /\ clr'[k2].st = "found" => clr'[k2].pkt.t = "ans" /\ clr'[k2].pkt.id \in Calls
-    BY DEF ClrOK
-  <2>1. CASE k2 # k
-    BY <2>1 DEF TypeInv, DataInv, ClrOK, ClientReaderLookup
-  <2>2. CASE k2 = k
-    <3>1. CASE clr[k].pkt.t = "ans" /\ clr[k].pkt.id \in queries
-      <4>1. clr'[k].pkt = clr[k].pkt /\ clr'[k].st = "found" /\ produced' = produced
-        BY <3>1, <1>1 DEF TypeInv, ClientReaderLookup, ClrRec
-      <4> QED
-        BY <4>1, <3>1, <2>2 DEF TypeInv, DataInv, ClrOK
-    <3>2. CASE ~(clr[k].pkt.t = "ans" /\ clr[k].pkt.id \in queries)
-      <4>1. clr'[k] = [st |-> "idle", pkt |-> NoPkt] /\ produced' = produced
-        BY <3>2 DEF TypeInv, ClientReaderLookup
-      <4> QED
-        BY <4>1, <2>2, NoPktType DEF PktOKp
-    <3> QED
-      BY <3>1, <3>2
-  <2> QED
-    BY <2>1, <2>2
-<1>6. LinkOK(link', produced') /\ ChanOwn' /\ OwnAnswer'
-  BY DEF DataInv, ClientReaderLookup, LinkOK, ChanOwn, OwnAnswer
-<1> QED
-  BY <1>4, <1>5, <1>6 DEF DataInv
-
-LEMMA S_Deliver ==
-  ASSUME TypeInv, DataInv, NEW k \in Conns, ClientReaderDeliver(k)
-  PROVE  TypeInv' /\ DataInv'
-<1> DEFINE p == clr[k].pkt
-<1>1. p \in Pkts /\ p.t = "ans" /\ p.id \in Calls /\ p.v \in produced[p.id] /\ p.v \in Vals
-  BY DEF TypeInv, DataInv, ClrOK, PktOKp, ClientReaderDeliver, ClrRec, Pkts, Vals
-<1>2. chans[p.id] \in Seq(Vals)
-  BY <1>1 DEF TypeInv
-<1>3. /\ Append(chans[p.id], p.v) \in Seq(Vals)
-      /\ Len(Append(chans[p.id], p.v)) = Len(chans[p.id]) + 1
-      /\ \A i \in 1 .. Len(chans[p.id]) : Append(chans[p.id], p.v)[i] = chans[p.id][i]
-      /\ Append(chans[p.id], p.v)[Len(chans[p.id]) + 1] = p.v
-      /\ Len(chans[p.id]) \in Nat
-  BY <1>1, <1>2, AppendProperties, LenProperties
-<1>4. /\ chans' = [chans EXCEPT ![p.id] = Append(@, p.v)]
-      /\ clr' = [clr EXCEPT ![k] = [st |-> "idle", pkt |-> NoPkt]]
-      /\ UNCHANGED <<pc, conn, ret, queries, status, gen, link, produced>>
-  BY DEF ClientReaderDeliver
-<1>5. TypeInv'
-  <2>1. chans' \in [Calls -> Seq(Vals)]
-    BY <1>1, <1>3, <1>4 DEF TypeInv
-  <2>2. clr' \in [Conns -> ClrRec]
-    BY <1>4, NoPktType DEF TypeInv, ClrRec
-  <2> QED
-    BY <2>1, <2>2, <1>4 DEF TypeInv
-<1>6. ChanOwn'
-  <2> SUFFICES ASSUME NEW d \in Calls, NEW j \in 1..Len(chans'[d]) PROVE chans'[d][j] \in produced'[d]
-    BY DEF ChanOwn
-  <2>1. CASE d = p.id
-    <3>1. chans'[d] = Append(chans[p.id], p.v)
-      BY <2>1, <1>4 DEF TypeInv
-    <3>2. CASE j \in 1..Len(chans[p.id])
-      BY <3>1, <3>2, <1>3, <1>4, <2>1 DEF DataInv, ChanOwn
-    <3>3. CASE j = Len(chans[p.id]) + 1
-      BY <3>1, <3>3, <1>3, <1>4, <1>1, <2>1
-    <3> QED
-      BY <3>1, <3>2, <3>3, <1>3
-  <2>2. CASE d # p.id
-    BY <2>2, <1>4 DEF TypeInv, DataInv, ChanOwn
-  <2> QED
-    BY <2>1, <2>2
-<1>7. ClrOK(clr', produced')
-  BY <1>4, NoPktType DEF TypeInv, DataInv, ClrOK, PktOKp
-<1>8. LinkOK(link', produced') /\ OwnAnswer'
-  BY <1>4 DEF DataInv, LinkOK, OwnAnswer
-<1> QED
-  BY <1>5, <1>6, <1>7, <1>8 DEF DataInv
-
-(* ======================================================= ping, reconnect *)
-LEMMA S_PingTick ==
-  ASSUME TypeInv, DataInv, NEW k \in Conns, PingTick(k)
-  PROVE  TypeInv' /\ DataInv'
-<1>1. CASE /\ SetL(k, gen[k], [Cur(k) EXCEPT !.rst = TRUE])
-           /\ UNCHANGED <<callVars, status, gen, clr, produced>>
-  <2> DEFINE l == L(k, gen[k])
-             rec == [l EXCEPT !.rst = TRUE]
-  <2>1. gen[k] \in Gens(k) /\ Cur(k) = l
-    BY CurOfLink
-  <2>2. l \in LinkRec /\ RecOK(l, produced)
-    BY <2>1, RecOfLink, LinkRecOK
-  <2>3. rec \in LinkRec /\ rec.in = l.in /\ rec.rh = l.rh
-    BY <2>2 DEF LinkRec
-  <2>4. RecOK(rec, produced)
-    BY <2>2, <2>3, SamePktsOK
-  <2>5. SetL(k, gen[k], rec) /\ UNCHANGED <<pc, conn, ret, queries, chans, status, gen, clr, produced>>
-    BY <1>1, <2>1 DEF callVars
-  <2> HIDE DEF l, rec
-  <2> QED
-    BY <2>1, <2>3, <2>4, <2>5, S_SetLOnly
-<1>2. CASE UNCHANGED <<link, callVars, status, gen, clr, produced>>
-  BY <1>2, UnchStep DEF callVars
-<1> QED
-  BY <1>1, <1>2 DEF PingTick
-
-LEMMA ClosedOK ==
-  ASSUME NEW l \in LinkRec, NEW prod, RecOK(l, prod), NEW n \in 0..Len(l.in)
-  PROVE  Closed(l, n) \in LinkRec /\ RecOK(Closed(l, n), prod)
-<1>1. l.in \in Seq(Pkts) /\ Len(l.in) \in Nat /\ \A i \in 1..Len(l.in) : l.in[i] \in Pkts
-  BY LenProperties DEF LinkRec
-<1>2. /\ SubSeq(l.in, 1, n) \in Seq(Pkts)
-      /\ Len(SubSeq(l.in, 1, n)) = n
-      /\ \A i \in 1 .. n : SubSeq(l.in, 1, n)[i] = l.in[i]
-  BY <1>1
-<1>3. /\ Closed(l, n) \in LinkRec /\ Closed(l, n).in = SubSeq(l.in, 1, n) /\ Closed(l, n).rh = l.rh
-  BY <1>2 DEF Closed, LinkRec, Fins
-<1>4. \A j \in 1..Len(SubSeq(l.in, 1, n)) : SubSeq(l.in, 1, n)[j] = l.in[j] /\ j \in 1..Len(l.in)
-  BY <1>1, <1>2
-<1>5. RecOK(Closed(l, n), prod)
-  BY <1>3, <1>4 DEF RecOK
-<1> QED
-  BY <1>3, <1>5
-
-LEMMA S_RcBegin ==
-  ASSUME TypeInv, DataInv, NEW k \in Conns, RcBegin(k)
-  PROVE  TypeInv' /\ DataInv'
-<1>1. CASE status[k] = "Connecting"
-  BY <1>1, UnchStep DEF RcBegin, callVars
-<1>2. CASE status[k] # "Connecting"
-  <2> DEFINE l == L(k, gen[k])
-  <2>1. gen[k] \in Gens(k) /\ Cur(k) = l /\ l \in LinkRec /\ RecOK(l, produced)
-    BY CurOfLink, RecOfLink, LinkRecOK
-  <2>2. PICK n \in 0..Len(l.in) : SetL(k, gen[k], Closed(l, n))
-    BY <1>2, <2>1 DEF RcBegin
-  <2>3. Closed(l, n) \in LinkRec /\ RecOK(Closed(l, n), produced)
-    BY <2>1, ClosedOK
-  <2>4. /\ status' = [status EXCEPT ![k] = "Connecting"]
-        /\ UNCHANGED <<pc, conn, ret, queries, chans, gen, clr, produced>>
-    BY <1>2 DEF RcBegin, callVars
-  <2> HIDE DEF l
-  <2>5. /\ link' \in [Conns -> Seq(LinkRec)]
-        /\ \A k2 \in Conns : Len(link'[k2]) = Len(link[k2])
-    BY <2>1, <2>2, <2>3, SetLFacts
-  <2>6. TypeInv'
-    BY <2>4, <2>5 DEF TypeInv
-  <2>7. LinkOK(link', produced')
-    <3>1. Mono(produced, produced') /\ RecOK(Closed(l, n), produced')
-      BY <2>3, <2>4 DEF Mono
-    <3> QED
-      BY <3>1, <2>1, <2>2, <2>3, SetLData DEF DataInv
-  <2>8. ClrOK(clr', produced') /\ ChanOwn' /\ OwnAnswer'
-    BY <2>4 DEF DataInv, ClrOK, ChanOwn, OwnAnswer
-  <2> QED
-    BY <2>6, <2>7, <2>8 DEF DataInv
-<1> QED
-  BY <1>1, <1>2
-
-\* a step that replaces every record of connection k by F(h), lengths unchanged
-LEMMA S_Map ==
-  ASSUME TypeInv, DataInv, NEW k \in Conns, NEW F(_),
-         \A h \in Gens(k) : F(h) \in LinkRec /\ RecOK(F(h), produced),
-         link' = [link EXCEPT ![k] = [h \in Gens(k) |-> F(h)]],
-         status' \in [Conns -> {"Connected", "Connecting"}],
-         gen' \in [Conns -> Nat], \A k2 \in Conns : gen'[k2] \in 1..Len(link[k2]),
-         UNCHANGED <<pc, conn, ret, queries, chans, clr, produced>>
-  PROVE  TypeInv' /\ DataInv'
-<1> DEFINE n == Len(link[k])
-           s == [h \in 1..n |-> F(h)]
-<1>1. link \in [Conns -> Seq(LinkRec)] /\ n \in Nat /\ Gens(k) = 1..n
-  BY LenProperties DEF TypeInv, Gens
-<1>2. s \in Seq(LinkRec)
-  BY <1>1, IsASeq
-<1>3. Len(s) = n /\ \A h \in 1..n : s[h] = F(h)
-  <2>1. DOMAIN s = 1..Len(s) /\ Len(s) \in Nat
-    BY <1>2, LenProperties
-  <2>2. DOMAIN s = 1..n
-    OBVIOUS
-  <2> QED
-    BY <2>1, <2>2, <1>1
-<1>4. link' = [link EXCEPT ![k] = s]
-  BY <1>1
-<1> HIDE DEF s
-<1>5. /\ link' \in [Conns -> Seq(LinkRec)]
-      /\ \A k2 \in Conns : Len(link'[k2]) = Len(link[k2])
-      /\ \A k2 \in Conns : k2 # k => link'[k2] = link[k2]
-      /\ link'[k] = s
-  BY <1>1, <1>2, <1>3, <1>4
-<1>6. TypeInv'
-  BY <1>5 DEF TypeInv
-<1>7. LinkOK(link', produced')
-  <2> SUFFICES ASSUME NEW k2 \in Conns, NEW g2 \in 1..Len(link'[k2]) PROVE RecOK(link'[k2][g2], produced')
-    BY DEF LinkOK
-  <2>0. produced' = produced /\ g2 \in 1..Len(link[k2])
-    BY <1>5
-  <2>1. CASE k2 = k
-    BY <2>0, <2>1, <1>1, <1>3, <1>5
-  <2>2. CASE k2 # k
-    BY <2>0, <2>2, <1>5 DEF DataInv, LinkOK
-  <2> QED
-    BY <2>1, <2>2
-<1>8. ClrOK(clr', produced') /\ ChanOwn' /\ OwnAnswer'
-  BY DEF DataInv, ClrOK, ChanOwn, OwnAnswer
-<1> QED
-  BY <1>6, <1>7, <1>8 DEF DataInv
-
-LEMMA S_ReaderRcBegin ==
-  ASSUME TypeInv, DataInv, NEW k \in Conns, NEW g \in Gens(k), ReaderRcBegin(k, g)
-  PROVE  TypeInv' /\ DataInv'
-<1> DEFINE l == L(k, g)
-<1>0. l \in LinkRec /\ RecOK(l, produced)
-  BY RecOfLink, LinkRecOK
-<1>1. CASE status[k] = "Connecting"
-  <2> DEFINE rec == [l EXCEPT !.r = "dead"]
-  <2>1. rec \in LinkRec /\ rec.in = l.in /\ rec.rh = l.rh
-    BY <1>0 DEF LinkRec, RSts
-  <2>2. RecOK(rec, produced)
-    BY <1>0, <2>1, SamePktsOK
-  <2>3. SetL(k, g, rec) /\ UNCHANGED <<pc, conn, ret, queries, chans, status, gen, clr, produced>>
-    BY <1>1 DEF ReaderRcBegin, callVars
-  <2> HIDE DEF l, rec
-  <2> QED
-    BY <2>1, <2>2, <2>3, S_SetLOnly
-<1>2. CASE status[k] # "Connecting"
-  <2>1. PICK n \in 0..Len(Cur(k).in) :
-           link' = [link EXCEPT ![k] = [h \in Gens(k) |->
-                          LET x == IF h = gen[k] THEN Closed(link[k][h], n) ELSE link[k][h] IN
-                          IF h = g THEN [x EXCEPT !.r = "dial"] ELSE x]]
-    BY <1>2 DEF ReaderRcBegin
-  <2> DEFINE X(h) == IF h = gen[k] THEN Closed(link[k][h], n) ELSE link[k][h]
-             F(h) == IF h = g THEN [X(h) EXCEPT !.r = "dial"] ELSE X(h)
-  <2>2. gen[k] \in Gens(k) /\ Cur(k) = L(k, gen[k])
-    BY CurOfLink
-  <2>3. \A h \in Gens(k) : X(h) \in LinkRec /\ RecOK(X(h), produced)
-    <3> TAKE h \in Gens(k)
-    <3>1. L(k, h) \in LinkRec /\ RecOK(L(k, h), produced) /\ L(k, h) = link[k][h]
-      BY RecOfLink, LinkRecOK
-    <3>2. CASE h = gen[k]
-      <4>1. n \in 0..Len(link[k][h].in)
-        BY <3>2, <2>2, <3>1
-      <4> QED
-        BY <4>1, <3>1, <3>2, ClosedOK
-    <3>3. CASE h # gen[k]
-      BY <3>1, <3>3
-    <3> QED
-      BY <3>2, <3>3
-  <2>4. \A h \in Gens(k) : F(h) \in LinkRec /\ RecOK(F(h), produced)
-    <3> TAKE h \in Gens(k)
-    <3>1. X(h) \in LinkRec /\ RecOK(X(h), produced)
-      BY <2>3
-    <3> HIDE DEF X
-    <3>2. [X(h) EXCEPT !.r = "dial"] \in LinkRec /\ [X(h) EXCEPT !.r = "dial"].in = X(h).in
-          /\ [X(h) EXCEPT !.r = "dial"].rh = X(h).rh
-      BY <3>1 DEF LinkRec, RSts
-    <3>3. RecOK([X(h) EXCEPT !.r = "dial"], produced)
-      BY <3>1, <3>2, SamePktsOK
-    <3> QED
-      BY <3>1, <3>2, <3>3
-  <2>5. link' = [link EXCEPT ![k] = [h \in Gens(k) |-> F(h)]]
-    BY <2>1
-  <2>6. /\ status' \in [Conns -> {"Connected", "Connecting"}]
-        /\ gen' \in [Conns -> Nat] /\ \A k2 \in Conns : gen'[k2] \in 1..Len(link[k2])
-        /\ UNCHANGED <<pc, conn, ret, queries, chans, clr, produced>>
-    BY <1>2 DEF ReaderRcBegin, callVars, TypeInv
-  <2> HIDE DEF F, X
-  <2> QED
-    BY <2>4, <2>5, <2>6, S_Map
-<1> QED
-  BY <1>1, <1>2
-
-LEMMA S_SetupDone ==
-  ASSUME TypeInv, DataInv, NEW k \in Conns, SetupDone(k)
-  PROVE  TypeInv' /\ DataInv'
-<1> DEFINE F(h) == IF h = gen[k] + 1 THEN [link[k][h] EXCEPT !.p = "run", !.r = "run"]
-                   ELSE IF dial[k] = <<"r", h>> THEN [link[k][h] EXCEPT !.r = "dead"] ELSE link[k][h]
-<1>1. \A h \in Gens(k) : F(h) \in LinkRec /\ RecOK(F(h), produced)
-  <2> TAKE h \in Gens(k)
-  <2>1. L(k, h) \in LinkRec /\ RecOK(L(k, h), produced) /\ L(k, h) = link[k][h]
-    BY RecOfLink, LinkRecOK
-  <2>2. F(h) \in LinkRec /\ F(h).in = link[k][h].in /\ F(h).rh = link[k][h].rh
-    BY <2>1 DEF LinkRec, PSts, RSts
-  <2> HIDE DEF F
-  <2> QED
-    BY <2>1, <2>2, SamePktsOK
-<1>2. link' = [link EXCEPT ![k] = [h \in Gens(k) |-> F(h)]]
-  BY DEF SetupDone
-<1>3. /\ status' \in [Conns -> {"Connected", "Connecting"}]
-      /\ gen' \in [Conns -> Nat] /\ \A k2 \in Conns : gen'[k2] \in 1..Len(link[k2])
-      /\ UNCHANGED <<pc, conn, ret, queries, chans, clr, produced>>
-  BY DEF SetupDone, callVars, TypeInv
-<1> HIDE DEF F
-<1> QED
-  BY <1>1, <1>2, <1>3, S_Map
-
-LEMMA S_DialOk ==
-  ASSUME TypeInv, DataInv, NEW k \in Conns, DialOk(k)
-  PROVE  TypeInv' /\ DataInv'
-<1> DEFINE s == Append(link[k], NewLink)
-<1>1. link \in [Conns -> Seq(LinkRec)] /\ link[k] \in Seq(LinkRec) /\ Len(link[k]) \in Nat
-  BY LenProperties DEF TypeInv
-<1>2. /\ s \in Seq(LinkRec) /\ Len(s) = Len(link[k]) + 1
-      /\ \A i \in 1 .. Len(link[k]) : s[i] = link[k][i]
-      /\ s[Len(link[k]) + 1] = NewLink
-  BY <1>1, NewLinkType, AppendProperties
-<1>3. link' = [link EXCEPT ![k] = s] /\ UNCHANGED <<pc, conn, ret, queries, chans, status, gen, clr, produced>>
-  BY DEF DialOk, callVars
-<1> HIDE DEF s
-<1>4. /\ link' \in [Conns -> Seq(LinkRec)]
-      /\ \A k2 \in Conns : k2 # k => link'[k2] = link[k2]
-      /\ link'[k] = s
-  BY <1>1, <1>2, <1>3
-<1>5. TypeInv'
-  BY <1>1, <1>2, <1>3, <1>4 DEF TypeInv
-<1>6. LinkOK(link', produced')
-  <2> SUFFICES ASSUME NEW k2 \in Conns, NEW g2 \in 1..Len(link'[k2]) PROVE RecOK(link'[k2][g2], produced')
-    BY DEF LinkOK
-  <2>0. produced' = produced
-    BY <1>3
-  <2>1. CASE k2 # k
-    BY <2>0, <2>1, <1>4 DEF DataInv, LinkOK
-  <2>2. CASE k2 = k /\ g2 \in 1..Len(link[k])
-    BY <2>0, <2>2, <1>2, <1>4 DEF DataInv, LinkOK
-  <2>3. CASE k2 = k /\ g2 = Len(link[k]) + 1
-    <3>1. link'[k2][g2] = NewLink
-      BY <2>3, <1>2, <1>4
-    <3>2. RecOK(NewLink, produced')
-      BY NewLinkType, NoPktType DEF RecOK, PktOKp
-    <3> QED
-      BY <3>1, <3>2
-  <2> QED
-    BY <2>1, <2>2, <2>3, <1>1, <1>2, <1>4
-<1>7. ClrOK(clr', produced') /\ ChanOwn' /\ OwnAnswer'
-  BY <1>3 DEF DataInv, ClrOK, ChanOwn, OwnAnswer
-<1> QED
-  BY <1>5, <1>6, <1>7 DEF DataInv
+EXTENDS LiteClient_Ind2
 
 (* ==================================== TypeInv /\ DataInv is preserved by Next *)
 LEMMA TD_Caller ==
@@ -1259,4 +339,5 @@ THEOREM InvImplies ==
 
 THEOREM Safety == Spec => [](OwnAnswer /\ ChanOwn /\ ReaderNeverBlocks /\ RegisteredWhileWaiting)
   BY InvInvariant, InvImplies, PTL
+========================================================================
 =============================================================================
